@@ -34,10 +34,10 @@ def dump(build, debug_assertions=False):
     return out
 
 class Item:
-    __slots__ = ('kind', 'name', 'header', 'params', 'ret', 'lines', '_blocks', 'locals', 'impl_at', 'value_text', 'self_subst', '_hdr')
+    __slots__ = ('kind', 'name', 'header', 'params', 'ret', 'lines', '_blocks', 'locals', 'impl_at', 'value_text', 'self_subst', '_hdr', 'debug', '_ipdom')
     def __init__(s, kind, name, header):
         s.kind, s.name, s.header = kind, name, header
-        s.params = []; s.ret = None; s.lines = []; s._blocks = None; s.locals = {}; s.value_text = None; s.self_subst = None; s._hdr = None
+        s.params = []; s.ret = None; s.lines = []; s._blocks = None; s.locals = {}; s.value_text = None; s.self_subst = None; s._hdr = None; s.debug = {}; s._ipdom = None
         m = re.search(r'<impl at ([^:>]+):(\d+):(\d+): (\d+):(\d+)>', name)
         s.impl_at = (m.group(1), int(m.group(2)), int(m.group(3)), int(m.group(4)), int(m.group(5))) if m else None
     @property
@@ -54,6 +54,9 @@ class Item:
                 else:
                     m = re.match(r'^\s*let (?:mut )?(_\d+): (.*);$', l)
                     if m: s.locals[m.group(1)] = m.group(2)
+                    else:
+                        m = re.match(r'^\s*debug (\w+) => (_\d+);$', l)
+                        if m: s.debug.setdefault(m.group(1), []).append(m.group(2))
             s._blocks = blocks
         return s._blocks
     def impl_header(s):
